@@ -1034,14 +1034,6 @@ def worker(ctx):
                 del pending_bad[:]
                 eval_select(batch)
 
-    harness.hyp_search(ctx, one, body, max_examples=ctx.params["n"], chunk=50, time_frac=0.65)
-    if pending and not ctx.out_of_time(0.9):
-        eval_program(list(pending))
-        del pending[:]
-    if pending_bad and not ctx.out_of_time(0.9):
-        eval_select(list(pending_bad))
-        del pending_bad[:]
-
     # ---- stage 2: element places with computed indices.  GenEffects statements whose subject is an array
     # element (xs[i] = v, xs[i] op= v, xss[i][j] op= v, an inner array xss[i] / xsss[i][j] lent to a call, an
     # index that is itself an element `sel[0]` which the right-hand side changes), the indices being
@@ -1072,9 +1064,25 @@ def worker(ctx):
             if st1 == "mismatch":
                 ctx.violation("place." + b1, {"src": src}, d1 + "\n" + src[src.index("def main"):])
 
-    if ctx.params.get("n_place"):
-        harness.hyp_search(ctx, effects.program_batches(k=5, allow_known=False, kinds=effects.PLACE_KINDS), place_body,
-                           max_examples=ctx.params["n_place"], chunk=5, time_frac=0.85, extra_seed=11)
+    def run_place(n_batches, time_frac, extra_seed):
+        if n_batches:
+            harness.hyp_search(ctx, effects.program_batches(k=5, allow_known=False, kinds=effects.PLACE_KINDS), place_body,
+                               max_examples=n_batches, chunk=5, time_frac=time_frac, extra_seed=extra_seed)
+
+    # half of the place programs run before the scripts, the rest afterwards, so that a slow machine cannot
+    # squeeze this stage out
+    run_place((ctx.params.get("n_place", 0) + 1) // 2, 0.25, 11)
+
+
+    harness.hyp_search(ctx, one, body, max_examples=ctx.params["n"], chunk=50, time_frac=0.75)
+    if pending and not ctx.out_of_time(0.9):
+        eval_program(list(pending))
+        del pending[:]
+    if pending_bad and not ctx.out_of_time(0.9):
+        eval_select(list(pending_bad))
+        del pending_bad[:]
+
+    run_place(ctx.params.get("n_place", 0) // 2, 0.9, 12)
 
     n_unsup = sum(v for k, v in ctx.unsupported.items() if k.startswith("selene could not"))
     if n_unsup > 0.1 * max(1, ctx.evaluations + n_unsup):
